@@ -530,7 +530,10 @@ where
     }
 
     fn output_delay(&self) -> usize {
-        (self.interpolator.len() as f64 * self.resample_ratio / 2.0) as usize
+        // The first output frame is evaluated one output period after the start of the input,
+        // minus one input frame plus one oversampling step.
+        let delay = self.resample_ratio * (1.0 - 1.0 / self.interpolator.nbr_sincs() as f64) - 1.0;
+        delay.round().max(0.0) as usize
     }
 
     fn nbr_channels(&self) -> usize {
@@ -894,7 +897,10 @@ where
     }
 
     fn output_delay(&self) -> usize {
-        (self.interpolator.len() as f64 * self.resample_ratio / 2.0) as usize
+        // The first output frame is evaluated one output period after the start of the input,
+        // minus one input frame plus one oversampling step.
+        let delay = self.resample_ratio * (1.0 - 1.0 / self.interpolator.nbr_sincs() as f64) - 1.0;
+        delay.round().max(0.0) as usize
     }
 
     fn set_resample_ratio(&mut self, new_ratio: f64, ramp: bool) -> ResampleResult<()> {
